@@ -1135,6 +1135,14 @@ class Normalizer:
             if rep is not None:
                 queue = rep + queue
                 continue
+            rep = self._comprehension_over_helper(s, ctx_def)
+            if rep is not None:
+                queue = rep + queue
+                continue
+            rep = self._fuse_generator(s, ctx_def, ctx_names)
+            if rep is not None:
+                queue = rep + queue
+                continue
             before = self._in_expression(s, ctx_def, ctx_names)
             if before:
                 queue = before + [s] + queue
@@ -1150,6 +1158,115 @@ class Normalizer:
                     c.body = self._xform_block(c.body, ctx_def, ctx_names, depth + 1)
             out.append(s)
         return out
+
+    def _comprehension_over_helper(self, s, ctx_def):
+        """`t = {E for x in helper(..)}` over a transparent generator helper -> `t = set()` + loop (then fused)"""
+        if not (isinstance(s, ast.Assign) and len(s.targets) == 1 and isinstance(s.targets[0], ast.Name) and isinstance(s.value, (ast.SetComp, ast.ListComp, ast.DictComp)) and len(s.value.generators) == 1):
+            return None
+        g = s.value.generators[0]
+        if not isinstance(g.iter, ast.Call) or self.resolve(g.iter.func, ctx_def) is None:
+            return None
+        t = s.targets[0].id
+        comp = s.value
+        if isinstance(comp, ast.SetComp):
+            init, add = ast.Call(func=ast.Name(id='set', ctx=ast.Load()), args=[], keywords=[]), ast.Expr(value=ast.Call(func=ast.Attribute(value=ast.Name(id=t, ctx=ast.Load()), attr='add', ctx=ast.Load()), args=[comp.elt], keywords=[]))
+        elif isinstance(comp, ast.ListComp):
+            init, add = ast.List(elts=[], ctx=ast.Load()), ast.Expr(value=ast.Call(func=ast.Attribute(value=ast.Name(id=t, ctx=ast.Load()), attr='append', ctx=ast.Load()), args=[comp.elt], keywords=[]))
+        else:
+            init, add = ast.Dict(keys=[], values=[]), ast.Assign(targets=[ast.Subscript(value=ast.Name(id=t, ctx=ast.Load()), slice=comp.key, ctx=ast.Store())], value=comp.value)
+        body = [add]
+        for cond in reversed(g.ifs):
+            body = [ast.If(test=cond, body=body, orelse=[])]
+        loop_cls = ast.AsyncFor if g.is_async else ast.For
+        loop = loop_cls(target=g.target, iter=g.iter, body=body, orelse=[])
+        a0 = ast.Assign(targets=[ast.Name(id=t, ctx=ast.Store())], value=init)
+        for n in (a0, loop):
+            ast.copy_location(n, s)
+            ast.fix_missing_locations(n)
+        self.stats['idioms'] += 1
+        return [a0, loop]
+
+    def _fuse_generator(self, s, ctx_def, ctx_names):
+        """`for x in helper(args): BODY` with a transparent generator helper: the helper's body is expanded and BODY takes
+        the place of each `yield v` (as `x = v; BODY`).  Only when BODY neither leaves nor restarts the loop on its own."""
+        if not isinstance(s, (ast.For, ast.AsyncFor)) or s.orelse or not isinstance(s.iter, ast.Call):
+            return None
+        d = self.resolve(s.iter.func, ctx_def)
+        if d is None or not self._inlinable(d):
+            return None
+        is_async_gen = isinstance(d.node, ast.AsyncFunctionDef)
+        if is_async_gen != isinstance(s, ast.AsyncFor):
+            return None
+        yields = [n for n in _local_walk(d.node) if isinstance(n, ast.Yield)]
+        if not yields or any(isinstance(n, ast.YieldFrom) for n in _local_walk(d.node)):
+            return None
+        if len(yields) > 3:
+            return None
+        def _escapes(stmts, in_loop=False):
+            for st in stmts:
+                if isinstance(st, ast.Return):
+                    return True
+                if isinstance(st, (ast.Break, ast.Continue)) and not in_loop:
+                    return True
+                if isinstance(st, FuncNode + (ast.ClassDef,)):
+                    continue
+                inner = in_loop or isinstance(st, (ast.For, ast.AsyncFor, ast.While))
+                for fld in ('body', 'orelse', 'finalbody'):
+                    blk = getattr(st, fld, None)
+                    if isinstance(blk, list) and blk and isinstance(blk[0], ast.stmt) and _escapes(blk, inner if fld == 'body' else in_loop):
+                        return True
+                for h in getattr(st, 'handlers', []) or []:
+                    if _escapes(h.body, in_loop):
+                        return True
+            return False
+
+        if _escapes(s.body):
+            return None
+        # yields must be statements (`yield v`), not sub-expressions
+        try:
+            prologue, hbody = self._prepare_body(d, s.iter, ctx_names)
+        except Refuse:
+            self.stats['refused'] += 1
+            return None
+        ok = [True]
+        target, user_body = s.target, s.body
+
+        class Y(ast.NodeTransformer):
+            def visit_Expr(self, n):
+                if isinstance(n.value, ast.Yield):
+                    v = n.value.value if n.value.value is not None else ast.Constant(value=None)
+                    asg = ast.Assign(targets=[copy.deepcopy(target)], value=v)
+                    ast.copy_location(asg, n)
+                    return [asg] + copy.deepcopy(user_body)
+                return self.generic_visit(n)
+
+            def visit_Yield(self, n):
+                ok[0] = False
+                return n
+
+            def visit_FunctionDef(self, n):
+                return n
+
+            visit_AsyncFunctionDef = visit_FunctionDef
+            visit_Lambda = visit_FunctionDef
+
+        holder = ast.Module(body=hbody, type_ignores=[])
+        Y().visit(holder)
+        if not ok[0]:
+            return None
+        flag = self._fresh('_returned', ctx_names)
+        used = []
+        new = self._elim(holder.body, lambda value, at: [], flag, used)
+        if used:
+            init = ast.Assign(targets=[ast.Name(id=flag, ctx=ast.Store())], value=ast.Constant(value=False))
+            new = [ast.copy_location(init, s)] + new
+        res = prologue + new
+        for st in res:
+            ast.fix_missing_locations(st)
+            st._inlined_from = d.qual
+        self.stats['inlined_calls'] += 1
+        self.log.append(f'fuse generator {d.rel}::{d.qual} into the loop at line {getattr(s, "lineno", 0)}')
+        return res or [ast.copy_location(ast.Pass(), s)]
 
     # ---------------------------------------------------------- jump threading
     def _thread_blocks(self, fn, node):
@@ -1644,6 +1761,38 @@ class Normalizer:
         def is_ref(n):
             return (isinstance(n, ast.Name) and n.id == name) or (isinstance(n, ast.Attribute) and n.attr == name)
 
+        if mutable:
+            # a mutable literal may only be folded when every use is a pure read in place: an alias (`q = CONST`), an argument,
+            # a return value ... could be modified through the other name (folding would then hide shared state)
+            parents = {}
+            for n in ast.walk(tree):
+                for c in ast.iter_child_nodes(n):
+                    parents[id(c)] = n
+            READERS = {'get', 'keys', 'items', 'values', 'copy', 'index', 'count', 'union', 'intersection', 'difference', 'issubset', 'issuperset'}
+            for n in ast.walk(tree):
+                if is_ref(n) and isinstance(n.ctx, ast.Load):
+                    par = parents.get(id(n))
+                    ok = False
+                    if isinstance(par, ast.Subscript) and par.value is n and isinstance(par.ctx, ast.Load):
+                        ok = True
+                    elif isinstance(par, ast.Compare) and n in par.comparators and all(isinstance(o, (ast.In, ast.NotIn)) for o in par.ops):
+                        ok = True
+                    elif isinstance(par, (ast.For, ast.AsyncFor, ast.comprehension)) and par.iter is n:
+                        ok = True
+                    elif isinstance(par, ast.Attribute) and par.value is n and par.attr in READERS:
+                        ok = True
+                    elif isinstance(par, ast.Call) and n in par.args and isinstance(par.func, ast.Name) and par.func.id in ('len', 'sorted', 'list', 'tuple', 'set', 'frozenset', 'dict', 'any', 'all', 'isinstance'):
+                        ok = True
+                    elif isinstance(par, ast.Call) and n in par.args and isinstance(par.func, ast.Attribute) and par.func.attr in ('fromkeys', 'join') and isinstance(par.func.value, (ast.Name, ast.Constant)):
+                        ok = True
+                    elif isinstance(par, (ast.Starred, ast.keyword)) and (not isinstance(par, ast.keyword) or par.arg is None):
+                        ok = True
+                    elif isinstance(par, ast.Attribute) and par.value is not n:
+                        ok = True  # self.CONST handled by the enclosing attribute node
+                    if not ok and isinstance(par, ast.Call) and (n in par.args or any(k.value is n for k in par.keywords)):
+                        ok = self._param_read_only(tree, par, n, READERS)
+                    if not ok:
+                        return True
         for n in ast.walk(tree):
             if is_ref(n) and isinstance(n.ctx, (ast.Store, ast.Del)):
                 stores += 1
@@ -1656,6 +1805,49 @@ class Normalizer:
             elif mutable and isinstance(n, ast.Call) and isinstance(n.func, ast.Attribute) and n.func.attr in self._MUTATORS and is_ref(n.func.value):
                 return True
         return stores != 1
+
+    def _param_read_only(self, tree, call, arg, READERS):
+        """the constant is passed to a function of this module that only reads the corresponding parameter"""
+        fname = call.func.id if isinstance(call.func, ast.Name) else (call.func.attr if isinstance(call.func, ast.Attribute) and isinstance(call.func.value, ast.Name) and call.func.value.id in ('self', 'cls') else None)
+        if fname is None:
+            return False
+        cands = [f for f in ast.walk(tree) if isinstance(f, FuncNode) and f.name == fname]
+        if len(cands) != 1:
+            return False
+        f = cands[0]
+        params = [a.arg for a in f.args.posonlyargs + f.args.args]
+        is_static = any(isinstance(d_, ast.Name) and d_.id == 'staticmethod' for d_ in f.decorator_list)
+        if isinstance(call.func, ast.Attribute) and params and not is_static:
+            params = params[1:]
+        pname = None
+        if arg in call.args:
+            i = call.args.index(arg)
+            pname = params[i] if i < len(params) else None
+        else:
+            for k in call.keywords:
+                if k.value is arg:
+                    pname = k.arg
+        if pname is None:
+            return False
+        parents = {}
+        for n in ast.walk(f):
+            for c in ast.iter_child_nodes(n):
+                parents[id(c)] = n
+        for n in ast.walk(f):
+            if isinstance(n, ast.Name) and n.id == pname:
+                if not isinstance(n.ctx, ast.Load):
+                    return False
+                par = parents.get(id(n))
+                ok = (
+                    (isinstance(par, ast.Subscript) and par.value is n and isinstance(par.ctx, ast.Load))
+                    or (isinstance(par, ast.Compare) and n in par.comparators)
+                    or (isinstance(par, (ast.For, ast.AsyncFor, ast.comprehension)) and par.iter is n)
+                    or (isinstance(par, ast.Attribute) and par.value is n and par.attr in READERS)
+                    or (isinstance(par, ast.Call) and n in par.args and isinstance(par.func, ast.Name) and par.func.id in ('len', 'sorted', 'list', 'tuple', 'set', 'frozenset', 'dict', 'any', 'all', 'isinstance'))
+                )
+                if not ok:
+                    return False
+        return True
 
     def _subst_consts_func(self, fn, mod_consts, cls_consts, cname, rel):
         shadow = _stores(fn) | {a.arg for a in fn.args.args + fn.args.kwonlyargs + fn.args.posonlyargs}
